@@ -24,7 +24,10 @@ theorem fltE_written (f : Field) (dec : Nat) (fmt c : Char) (hk : f.kind = .flt 
     (neg : Bool) (m : Nat) (e : Int) (hwf : wfn m e ∨ m = 0)
     (hfits : Spec.C02.fits f (.dbl (.fin neg m e)) = true) (t : List Char)
     (ht : renderText f (.dbl (.fin neg m e)) = .ok t) :
-    (∃ r, parseText f.kind t = some (.dbl r)) ∧ ¬ '\n' ∈ t := by
+    (∃ r, parseText f.kind t = some (.dbl r)) ∧ ¬ '\n' ∈ t ∧
+    ∃ k ip fp eneg exd, (∀ x ∈ ip ++ fp ++ exd, x.isDigit = true) ∧
+      t = List.replicate k ' ' ++ Proofs.FloatLaw.subst1 '.' c
+        (bodyE neg ip fp (if (fmt == 'E') = true then 'E' else 'e') eneg exd) := by
   obtain ⟨hc1, hc2, hc3⟩ := sep_facts hsep
   obtain ⟨hc4, hc5, hc6⟩ := sep_factsE hsep
   -- the characters of an E-notation text
@@ -55,7 +58,7 @@ theorem fltE_written (f : Field) (dec : Nat) (fmt c : Char) (hk : f.kind = .flt 
     have hdig := sciText_digits m' e' dec (by have := hsci.hK1; omega) (by have := hsci.hK2; omega)
     have : t = t' := by rw [h1] at ht; injection ht with ht; exact ht.symm
     subst this
-    refine ⟨⟨r, h3⟩, ?_⟩
+    refine ⟨⟨r, h3⟩, ?_, k, _, _, _, _, hdig, by rw [hteq]; rfl⟩
     rw [hteq]
     unfold sciText
     exact hchars k _ _ _ _ hdig
@@ -63,7 +66,7 @@ theorem fltE_written (f : Field) (dec : Nat) (fmt c : Char) (hk : f.kind = .flt 
       Proofs.FloatEZero.fltE_zero_core f dec fmt c hk hfmt hc1 hc2 hc3 hc4 hc5 hc6 neg e (by omega) hfits
     have : t = t' := by rw [h1] at ht; injection ht with ht; exact ht.symm
     subst this
-    refine ⟨⟨_, h3⟩, ?_⟩
+    refine ⟨⟨_, h3⟩, ?_, k, _, _, _, _, Proofs.FloatEZero.zeroText_digits d, by rw [hteq]; rfl⟩
     rw [hteq]
     unfold Proofs.FloatEZero.zeroText
     exact hchars k _ _ _ _ (Proofs.FloatEZero.zeroText_digits d)
@@ -124,7 +127,7 @@ theorem no_newline_FE (f : Field) (l : List Char) (hk : FldFE f) (hline : ¬ '\n
       obtain ⟨neg, m, e, rfl, _, hfits, hwfn⟩ := hfitF y hv
       rw [hv] at ht
       exact (fltE_written f dec fmt c hk hfmt hdec hsep neg m e
-        (hwfn ⟨dec, fmt, c, hk, hfmt, hdec, hsep⟩) hfits t ht).2
+        (hwfn ⟨dec, fmt, c, hk, hfmt, hdec, hsep⟩) hfits t ht).2.1
 
 theorem canon_some_FE (f : Field) (l : List Char) (v : Val) (hk : FldFE f)
     (hvread : v = f.readText l) (hvn : v ≠ .none) (hfitF : FitFE f l)
